@@ -124,6 +124,10 @@ func (ci *crdIpam) handleFIPUnassign(obj interface{}) error {
 	if !ok {
 		return fmt.Errorf("%s already been released", ipStr)
 	}
+	if _, reserved := allocated.Labels[constant.ReserveFIPLabel]; !reserved {
+		// the event may be handled after the pool has been reconfigured and the ip has been allocated again
+		return fmt.Errorf("%s is no longer reserved, it is allocated to %s", ipStr, allocated.Key)
+	}
 	ci.syncCacheAfterDel(allocated)
 	glog.Infof("released reserved ip %s", ipStr)
 	return nil
